@@ -20,6 +20,10 @@ package main
 //	c        create a new empty file at the path (no-op if one exists)
 //	H<hex>   append and hold: the consumer is parked (outside Read) as soon as it has delivered these bytes
 //	r        release the consumer
+//	L<hex>   (consumer parked, i.e. after H) release the consumer and append these bytes so that they land in the
+//	         LAST PollDelay sleep of the poller's attempt loop – after the last empty read, before the os.Stat
+//	         size/offset comparison (PollDelay is scaled to 20ms for this: the append is issued ReadAttempts x
+//	         PollDelay - PollDelay/2 after the release); notify reader: release, then append
 //
 // Answer: ok <delivered hex> eof=<0|1> drainerr=<0|1>.  All waits are bounded; a wait that expires
 // just lets the history go on (the final stream is then compared as it is).
@@ -238,6 +242,22 @@ func c15Follow(f []string) string {
 			c.hold, c.holdOn = false, nil
 			c.cond.Broadcast()
 			c.mu.Unlock()
+		case 'L':
+			c.mu.Lock()
+			timed := pr != nil && c.hold && c.parked
+			if timed {
+				// the reader goroutine is parked outside Read (it waits on c.cond): the field is not in use
+				pollDelay = 20 * time.Millisecond
+				pr.PollDelay = pollDelay
+			}
+			c.hold, c.holdOn = false, nil
+			c.cond.Broadcast()
+			c.mu.Unlock()
+			if timed {
+				time.Sleep(time.Duration(attempts)*pollDelay - pollDelay/2)
+				c15Counters["poll.append_in_last_sleep"]++
+			}
+			appendBytes(UnHex(arg))
 		}
 	}
 	// end of history: release, let the follower catch up, then a grace period in which a duplicate would show up
@@ -248,6 +268,9 @@ func c15Follow(f []string) string {
 	grace := 25 * time.Millisecond
 	if poll {
 		grace = time.Duration(8*(attempts+2)) * pollDelay
+		if pollDelay > time.Millisecond { // an `L` step scaled the delay: two full cycles are enough
+			grace = time.Duration(2*(attempts+1)) * pollDelay
+		}
 	}
 	if last != nil {
 		want := last
@@ -282,6 +305,9 @@ func c15Follow(f []string) string {
 func c15RunCase(f []string) string {
 	if f[0] == "tailb" && len(f) >= 2 {
 		return c15TailReplay(f)
+	}
+	if (f[0] == "ttrace" || f[0] == "tmut") && len(f) >= 2 {
+		return c15TraceReplay(f)
 	}
 	if f[0] != "follow" || len(f) < 5 {
 		return "bad-op"
@@ -378,6 +404,16 @@ func c15GenCase(r *Rand) string {
 	switch {
 	case shape < 4: // in place only
 		g.appends(r.Range(1, 6))
+		if mode == "poll" && r.Chance(2, 3) {
+			// timing class: the file is quiet for ReadAttempts empty polls and the next append lands in the last
+			// PollDelay sleep, before the size comparison (re-open: Stat sees a grown file -> re-open route)
+			g.add("H" + Hex(g.chunk(3, 12)))
+			g.add("L" + Hex(g.chunk(3, 12)))
+			if r.Bool() {
+				g.add("w")
+				g.appends(r.Range(1, 2))
+			}
+		}
 	case shape < 7: // rotations with the drain discipline
 		rot := 1
 		if reopen {
@@ -466,6 +502,8 @@ func c15GenAll(r *Rand, tier string) []string {
 	}
 	// observation point (b): the real code runs HERE, the observed batch lengths become part of the case
 	out = append(out, c15TailGenAll(r, tier)...)
+	// trace inclusion: event logs of real TailFilesToChan / VerifOpenReaderToChan runs (c15trace.go)
+	out = append(out, c15TraceGenAll(r, tier)...)
 	return out
 }
 
@@ -480,6 +518,10 @@ func c15Stats(cases []string) map[string]int {
 			c15TailStats(st, c)
 			continue
 		}
+		if len(f) >= 2 && (f[0] == "ttrace" || f[0] == "tmut") {
+			c15TraceStats(st, c)
+			continue
+		}
 		if len(f) < 5 {
 			continue
 		}
@@ -492,6 +534,9 @@ func c15Stats(cases []string) map[string]int {
 		}
 		if strings.Contains(h, ",H") {
 			st["history.busy_consumer_window"]++
+		}
+		if strings.Contains(h, ",L") {
+			st["history.append_in_last_poll_sleep."+f[1]]++
 		}
 		if strings.Contains(h, ",x,") {
 			st["history.remove_while_busy"]++
